@@ -39,13 +39,20 @@ RULE = (
     "each rule, representatives, emptiness and atom identity of every label, the order in which the pruned rules up to "
     "equivalence were iterated) + the recorded _eq_path_matches answers: the model builds the universes itself "
     "(ParallelInfo._construct_eq_label_rules) and runs the finder on them; for the synthetic stream the universes are "
-    "given. Compared: the universe each ParallelInfo built (or its refusal / exception), nothing / found / exception "
+    "given. Compared: the universe each ParallelInfo built (or its refusal / exception), the verdict on the decidable "
+    "hypotheses db_wf / only_atoms_verified of C13_construct_total / C13_construct_ok for each rule database (extracted "
+    "db_wfb inside run_c13 vs. the harness's own decision on the real objects), nothing / found / exception "
     "class, the two label maps (for real searchers read back from the RETURNED specifications through the searchers' "
     "class and equivalence databases). Oracle, independent of the "
     "model: no exception except the three documented refusals; each returned specification is rooted at its start "
     "class, closed, genuine, productive (naive Kleene iteration) and counts like brute force for n <= 8; the two are "
     "isomorphic (own greatest-fixed-point bisimulation up to equivalence steps AND Isomorphism.check both ways), "
-    "Bijection.construct succeeds and maps the objects of each size n <= 6 bijectively with a true inverse. "
+    "Bijection.construct succeeds and maps the objects of each size n <= 6 bijectively with a true inverse; for every "
+    "(label, children) of the two returned label maps that the specification reaches, the rule the SPECIFICATION holds "
+    "for the class resolved from that label has the children and the kind (class of Constructor.equiv, -1 verification "
+    "rule) of the rule the finder COMPARED for it in ParallelInfo.eq_label_rules; on a pair that Isomorphism.check "
+    "rejects, Bijection.construct must answer None without an exception (what the open chained-equivalences finding "
+    "asserts, now checked on every masked case). "
     "Non-trivial: two specifications returned, or an exception, with at least 3 labels on a side; distinct = distinct case."
 )
 TRUSTED = [
@@ -61,7 +68,9 @@ TRUSTED = [
     "the expansion of the searchers (ParallelInfo._expand) is not modelled; Constructor.equiv and the (size, terms) "
     "comparison of atoms enter as equivalence-class numbers computed by the harness with the real functions",
     "answers of _eq_path_matches (EquivalenceRuleExtractor over the rule database) are replayed from the real run",
-    "SpecificationRuleExtractor: model and theorem of C02 (Spec/Extractor.v), reused by C13_spec_from_label_map",
+    "SpecificationRuleExtractor: model and theorem of C02 (Spec/Extractor.v, key level only), reused by "
+    "C13_spec_from_label_map; CombinatorialSpecification.__init__: C02's model spec_init (Spec/Grouping.v), reused by "
+    "C13_label_map_meets_constructor_contract - neither is executed by run_c13",
 ]
 ASSUMPTIONS = [
     "well-formed searcher = RuleDB rule database, atoms are the only verified classes, strategies honour their "
@@ -71,7 +80,23 @@ ASSUMPTIONS = [
     "atoms can be verified.', RuntimeError 'Only searcher supported rule db is `RuleDB`.') count as declining the "
     "input, not as failing on it",
     "C13_universe_well_formed / C13_two_rule_sets assume that verification rules have no children (atoms are "
-    "verified by AtomStrategy)",
+    "verified by AtomStrategy); decided on every replayed rule database by extra_checks (0 exceptions required)",
+    "C13_construct_total (ParallelInfo's construction raises nothing) assumes db_wf db lis, C13_construct_ok (it builds "
+    "the universe) db_wf and only_atoms_verified: every entry of the pruned rules up to equivalence has a stored rule; "
+    "a stored rule that is such an entry up to equivalence and whose parent is a non-empty atom is a verification "
+    "rule, one whose parent is neither empty nor an atom and is a Rule has children (and, for _ok, IS a Rule). Both are "
+    "DECIDED on every replayed rule database, by the extracted db_wfb / only_atoms_verified_b inside run_c13 and by the "
+    "harness on the real objects (compared; C13_db_wf_decidable, C13_run_reports_coverage); extra_checks "
+    "`covered_by_theorem C13_construct_total: k of n` requires k/n >= 0.99 (measured 1.0) and that no covered rule "
+    "database made the real ParallelInfo raise",
+    "C13_label_map_meets_constructor_contract (bridge to C02_constructor_never_raises) assumes, and nobody checks for "
+    "C13's runs: the find_path contract in its strong form (path from l to t inside the equivalence class of l, no "
+    "label twice - C06's breadth-first path; the weak form first/last element is NOT enough, see Parallel/CtorReach.v), "
+    "the iff-contract on _no_lhs_labels (order_ok), the rule-data contract ruledata_ok (a rule that is_equivalence() is "
+    "handed out unary - to_equivalence_rule since 398db71 -, children beyond the key's are empty classes) and `chains` "
+    "(no cycle of hidden unary equivalence rules among the emitted rules: NOT a consequence of anything the finder "
+    "checks - ParallelSpecFinder does not test productivity). Not executed by run_c13: the tie of spec_init to "
+    "CombinatorialSpecification.__init__ is C02's correspondence on C02's inputs",
     "the EqPath theorems quantify over every oracle that answers all questions of _eq_path_matches; the real answers "
     "come from EquivalenceRuleExtractor, outside the model; C13_matched_pair_eqpath_with_paths assumes the CONTRACT of "
     "those answers (True only if the non-equivalence rules on the two equivalence paths match pairwise) as an abstract "
@@ -419,6 +444,105 @@ def _db_of(css, cls):
     return [css.start_label, reps, info, stored], lis
 
 
+def _db_wf(db, lis):
+    """the harness's own decision of the two decidable hypotheses of C13_construct_total / C13_construct_ok
+    (Parallel/InfoTotal.v db_wf, only_atoms_verified) on what ParallelInfo reads; returns bit 0 = db_wf,
+    bit 1 = only_atoms_verified.  Written from the Python code's three failure points, not from the Coq text:
+      rule_dict[(eq_par, eq_chi)]        needs a stored key that is the entry up to equivalence (KeyError)
+      rule.get_terms(sz) on an atom      needs a verification rule (RuntimeError on a Rule without subrecs)
+      assert len(eq_chi) > 0             needs children on a Rule of a non-empty non-atom parent
+    asked of EVERY stored key that is an entry of lis up to equivalence (the code reads the last such key)."""
+    _start, reps, info, stored = db
+
+    def rep(l):
+        return reps[l] if l < len(reps) else l
+
+    first_kind, pre = {}, defaultdict(list)
+    for par, ch, k in stored:
+        key = (par, tuple(ch))
+        first_kind.setdefault(key, k)
+        pre[(rep(par), tuple(sorted(rep(c) for c in ch)))].append(key)
+    wf, strict = True, True
+    for e in {(p, tuple(c)) for p, c in lis}:
+        if e not in pre:
+            wf = False
+            continue
+        for key in pre[e]:
+            par, ch = key
+            empty, aid = info[par] if par < len(info) else (0, -1)
+            if empty:
+                continue
+            k = first_kind[key]
+            if aid >= 0:
+                wf = wf and k < 0
+            else:
+                wf = wf and (k < 0 or len(ch) > 0)
+                strict = strict and k >= 0
+    return int(wf) + 2 * int(strict)
+
+
+def _ver_with_children(db):
+    """stored verification rules (kind < 0) that have children: the hypothesis ver_no_children of
+    C13_universe_well_formed / C13_two_rule_sets says there are none"""
+    return [[par, ch] for par, ch, k in db[3] if k < 0 and ch]
+
+
+def _emitted_kinds(spec, css, cls):
+    """eq label -> (sorted eq labels of the non-empty children, kind) of the rule the SPECIFICATION holds for the
+    class of that equivalence label that carries its decomposition rule (in-class unary steps skipped, an
+    EquivalenceRule wrapper - one non-empty child next to empty ones - unwrapped to the rule it was made from)"""
+    from comb_spec_searcher.strategies.rule import EquivalencePathRule, EquivalenceRule
+
+    eq = css.ruledb.equivdb
+    lab = css.classdb.get_label
+    held = {}
+    todo = []
+    for r in spec.rules_dict.values():
+        todo.extend(r.rules if isinstance(r, EquivalencePathRule) else [r])
+    for r in todo:
+        if r.comb_class.is_empty():
+            continue
+        p = eq[lab(r.comb_class)]
+        ch = sorted(eq[lab(c)] for c in r.children if not c.is_empty())
+        if len(ch) == 1 and ch[0] == p:
+            continue
+        base = r
+        while isinstance(base, EquivalenceRule):
+            base = base.original_rule
+        held.setdefault(p, []).append((ch, cls.kind(base), type(r).__name__))
+    return held
+
+
+def _kind_check(finder, specs, searchers, sides, cls):
+    """(c)3(b): for each side and every (label, children) of the label map the finder returned, the rule the returned
+    SPECIFICATION holds for the class resolved from that label has the kind (class of Constructor.equiv, -1 for a
+    verification rule) of the rule the finder COMPARED for (label, children) in ParallelInfo.eq_label_rules.
+    Labels of the map that the specification does not reach are skipped (the tree is cut at the root's closure);
+    the root label must be there.  Returns (message or None, number of labels compared)."""
+    n = 0
+    for i, (spec, css, side, m) in enumerate(zip(specs, searchers, sides, finder.rec_maps)):
+        compared = {(l, tuple(c)): k for l, rs in side[2] for c, k in rs}
+        held = _emitted_kinds(spec, css, cls)
+        root = side[0]
+        if root not in held and not css.start_class.is_empty():
+            return "side %d: the specification holds no decomposition rule for the root label %d" % (i + 1, root), n
+        for l, c in m.items():
+            if l not in held:
+                continue
+            if (l, tuple(c)) not in compared:
+                return "side %d: the label map binds %d -> %r, which is no candidate rule of ParallelInfo" % (i + 1, l, c), n
+            k = compared[(l, tuple(c))]
+            for ch, k2, tname in held[l]:
+                n += 1
+                if ch != sorted(c):
+                    return ("side %d: label %d is bound to %r but the specification's rule for it has the children %r"
+                            % (i + 1, l, list(c), ch)), n
+                if k2 != k:
+                    return ("side %d: for label %d -> %r the finder compared a rule of kind %d, the specification "
+                            "holds a %s of kind %d (same equivalence key, another rule)" % (i + 1, l, list(c), k, tname, k2)), n
+    return None, n
+
+
 def _canon_side(side):
     if not side:
         return []
@@ -554,7 +678,9 @@ def _impl_real(case):
     checks = []
     built = [_side_of_pi(i[0], cls, checks, n) if i[0] is not None else [] for n, i in enumerate(infos)]
     res["kind_bad"] = _kinds_bad(checks)
-    tail = [infos[0][1], _canon_side(built[0]), infos[1][1], _canon_side(built[1])]
+    res["wf"] = [_db_wf(db, lis) for db, lis in res["dbs"]]
+    res["ver_children"] = [_ver_with_children(db) for db, _ in res["dbs"]]
+    tail = [infos[0][1], _canon_side(built[0]), infos[1][1], _canon_side(built[1])] + res["wf"]
     res["start_labels"] = [s1.start_label, s2.start_label]
     if first_bad is not None:
         res["fuel"] = 10
@@ -588,6 +714,10 @@ def _impl_real(case):
     res["mi"] = _mi_json(finder.rec_mi)
     res["validity"] = [_validate_spec(sp1, s1), _validate_spec(sp2, s2)]
     res["iso"] = _iso_facts(sp1, sp2)
+    try:
+        res["kind_check"], res["kind_compared"] = _kind_check(finder, (sp1, sp2), (s1, s2), res["sides"], cls)
+    except Exception as e:  # pylint: disable=broad-except
+        res["kind_check"] = "harness: comparing emitted and compared kinds raised %s: %s" % (type(e).__name__, str(e)[:120])
     if case["variant"]:
         res["bad_edges"] = _unvalidated_edges(finder)
     res["nlabels"] = [len(k1), len(k2)]
@@ -730,7 +860,7 @@ def _impl_abs(case):
         B.EquivalenceRuleExtractor = real
 
 
-_ABS_TAIL = [9, [], 9, []]
+_ABS_TAIL = [9, [], 9, [], 9, 9]
 
 
 def impl(case):
@@ -756,11 +886,12 @@ def encode_with(case, res):
 
 
 def canon_model(mo):
-    if len(mo) != 8:
+    if len(mo) != 10:
         return mo
-    st, k1, k2, _asked, c1, side1, c2, side2 = mo
+    st, k1, k2, _asked, c1, side1, c2, side2, w1, w2 = mo
     # the cache misses of _eq_path_matches are internals: reported by the model, not compared
-    return [st, sorted(k1), sorted(k2), c1, _canon_side(side1), c2, _canon_side(side2)]
+    # w1, w2: the model's verdict on the decidable hypotheses of C13_construct_total / _ok, compared with _db_wf
+    return [st, sorted(k1), sorted(k2), c1, _canon_side(side1), c2, _canon_side(side2), w1, w2]
 
 
 # ===================================================================== oracle: validity of one specification
@@ -966,6 +1097,15 @@ def _iso_facts(spec1, spec2):
             if len(set(img)) != len(dom) or len(dom) != len(cod):
                 out["bijection"] = "size %d: %d objects mapped onto %d of %d" % (n, len(dom), len(set(img)), len(cod))
                 return out
+    else:
+        # what the open finding KF_CHAIN asserts about a rejected pair, checked instead of assumed: Bijection.construct
+        # answers None, without an exception (a bijection or an exception here is a defect of its own, never masked)
+        try:
+            if Bijection.construct(spec1, spec2) is not None:
+                out["bijection"] = "Bijection.construct returned a bijection although Isomorphism.check answers False"
+        except Exception as ex:  # pylint: disable=broad-except
+            out["bijection"] = "Bijection.construct raised %s: %s on a pair that Isomorphism.check rejects" % (
+                type(ex).__name__, str(ex)[:80])
     return out
 
 
@@ -1086,6 +1226,8 @@ def oracle(case, res):
         for i, v in enumerate(res["validity"]):
             if v:
                 return "specification %d is not valid for its start class: %s" % (i + 1, v)
+        if res.get("kind_check"):
+            return "the returned specification does not hold the rule the finder compared: " + res["kind_check"]
         why = None
         if not res["iso"]["structural"]:
             pc = _pair_check(res["sides"], out[1], out[2])
@@ -1223,6 +1365,7 @@ def extra_checks(ctx):
                 "ok" if patched else "failing input: findings/eqpath_unvalidated_child_paths.py (the EqPath finder returns a "
                 "pair whose child paths were never compared; C13_matched_pair_refuted is the model's witness of that code); "
                 "the fixed finding F-C13e returned"))
+    out.extend(_construct_total_checks(ctx))
     n = len(ctx.cases)
     if n < 15000:
         return out
@@ -1250,6 +1393,111 @@ def extra_checks(ctx):
         need = int(floor * scale)
         out.append(("coverage floor: %s" % what, tally[key] >= need, "%d reached, floor %d of %d cases" % (tally[key], need, n)))
     return out
+
+
+MIN_WF = 0.99      # measured 17896/17896, 17416/17416, 17642/17642 (every replayed rule database) on seeds 0, 1, 2
+MIN_WF_STRICT = 0.97   # measured 0.9975, 0.9982, 0.9973: the rest are the 'Only atoms can be verified.' universes
+
+
+_SELFTEST_CASE = {"kind": "word", "variant": 1, "a": {"start": 0, "pack": "base", "ruledb": "base"},
+                  "b": {"start": 7, "pack": "inferral", "ruledb": "base"}, "pre": [0, 0]}
+
+
+def _kind_check_selftest():
+    """the oracle check (c)3(b) must (1) pass on an honest pair and (2) fire when the kind the finder is said to have
+    compared differs from the kind of the rule the specification holds, and when the children differ.  Needed because
+    in the generated universes all rules with one equivalence key have one kind (measured: 0 of 2916 rule databases
+    differ), so no mutant of /repo exercises the failing branch."""
+    import copy
+
+    RecBase, RecEq = _finder_classes()
+    s1, s2 = _make_searchers(_SELFTEST_CASE)
+    cls = _Classes()
+    finder = RecEq(s1, s2)
+    sides, _ = _sides_of(finder, cls)
+    specs = finder.find()
+    if specs is None:
+        return False, "the self-test pair was not found"
+    ok, n = _kind_check(finder, specs, (s1, s2), sides, cls)
+    if ok is not None or not n:
+        return False, "honest pair rejected: %r (%d labels)" % (ok, n)
+    root = sides[0][0]
+    bad = copy.deepcopy(sides)
+    for l, rs in bad[0][2]:
+        if l == root:
+            for r in rs:
+                r[1] = r[1] + 17
+    msg, _ = _kind_check(finder, specs, (s1, s2), bad, cls)
+    if not msg or "compared a rule of kind" not in msg:
+        return False, "a wrong compared kind at the root label was not noticed: %r" % (msg,)
+    finder.rec_maps = (dict(finder.rec_maps[0]), dict(finder.rec_maps[1]))
+    l0 = next(l for l, c in finder.rec_maps[0].items() if len(c) >= 1)
+    finder.rec_maps[0][l0] = tuple(finder.rec_maps[0][l0]) + (root,)
+    msg2, _ = _kind_check(finder, specs, (s1, s2), sides, cls)
+    if not msg2:
+        return False, "a label map binding that is no rule of the specification was not noticed"
+    return True, "honest pair accepted on %d labels; tampered kind and tampered children both rejected" % n
+
+
+def _construct_total_checks(ctx):
+    """covered_by_theorem C13_construct_total / C13_construct_ok: on how many of the replayed rule databases the
+    decidable hypothesis db_wf (resp. db_wf and only_atoms_verified) holds - decided by the harness on the real
+    objects (_db_wf) and by the extracted db_wfb inside run_c13 (fields w1, w2 of the compared output: a
+    disagreement is a correspondence mismatch) - and, wherever it holds, that the REAL ParallelInfo did what the
+    theorem says of the model: no KeyError / AssertionError / RuntimeError out of _construct_eq_label_rules
+    (resp. the universe was built)."""
+    n = k1 = k3 = 0
+    contradicted, ver, kinds_cmp, kinds_cases = [], 0, 0, 0
+    for case, entry in zip(ctx.cases, ctx.impl_res):
+        res = entry[0] if isinstance(entry, (tuple, list)) else entry
+        if not isinstance(res, dict):
+            continue
+        if res.get("kind_compared"):
+            kinds_cases += 1
+            kinds_cmp += res["kind_compared"]
+        o = res.get("out")
+        if "wf" not in res or not isinstance(o, list) or len(o) != 9:
+            continue
+        for side, (w, c) in enumerate(zip(res["wf"], (o[3], o[5]))):
+            n += 1
+            ver += bool(res["ver_children"][side])
+            if w & 1:
+                k1 += 1
+                if c not in (0, 7):
+                    contradicted.append((key(case), side, w, c))
+            if w == 3:
+                k3 += 1
+                if c != 0:
+                    contradicted.append((key(case), side, w, c))
+    ok1 = not contradicted and (n == 0 or k1 >= MIN_WF * n)
+    ok3 = not contradicted and (n == 0 or k3 >= MIN_WF_STRICT * n)
+    detail = ("rule databases replayed through the model of ParallelInfo (two per real-searcher case that reached "
+              "_construct_eq_label_rules); db_wf decided on the real objects and by the extracted db_wfb (compared); "
+              "minimum fraction %.2f" % MIN_WF)
+    if contradicted:
+        detail = ("failing input: %s side %d: hypothesis code w=%d holds but ParallelInfo ended with code %d "
+                  "(11 KeyError, 13 AssertionError, 14 RuntimeError, 7 refusal): the theorem is about a model that "
+                  "is not this code" % contradicted[0])
+    return [
+        ("covered_by_theorem C13_construct_total: %d of %d" % (k1, n), ok1, detail),
+        ("covered_by_theorem C13_construct_ok: %d of %d" % (k3, n), ok3,
+         "as above with only_atoms_verified in addition (universe built, no refusal); minimum fraction %.2f" % MIN_WF_STRICT
+         if not contradicted else detail),
+        ("hypothesis ver_no_children of C13_universe_well_formed / C13_two_rule_sets decided on the stored rules: "
+         "%d of %d rule databases have a verification rule with children" % (ver, n), ver == 0,
+         "ok" if ver == 0 else "a stored verification rule with children: the two theorems do not apply to that universe"),
+        ("oracle (c)3(b) exercised: kind of the emitted rule = kind the finder compared, on %d labels of %d returned pairs"
+         % (kinds_cmp, kinds_cases), True, "information"),
+        _selftest_row(),
+    ]
+
+
+def _selftest_row():
+    try:
+        ok, detail = _kind_check_selftest()
+    except Exception as ex:  # pylint: disable=broad-except
+        ok, detail = False, "self-test raised %s: %s" % (type(ex).__name__, str(ex)[:200])
+    return ("self-test of the oracle check (c)3(b) (emitted rule = compared rule)", ok, detail)
 
 
 def shrink(case):
@@ -1309,10 +1557,24 @@ LEVEL_TEXT = (
     "C13_first_search_sound, C13_failure_memo_sound, C13_maps_use_rules; "
     "C13_universe_well_formed (the universe ParallelInfo._construct_eq_label_rules builds from a rule database — incl. the "
     "skipped empty parent — consists of stored rules up to equivalence, root = representative of the start label); "
+    "C13_construct_total (db_wf db lis -> construct db lis <> CErr e for every error code: under the decidable "
+    "well-formedness of the rule database ParallelInfo._construct_eq_label_rules raises neither KeyError nor "
+    "AssertionError nor RuntimeError - the failure class of a172a92), C13_construct_ok (with only_atoms_verified it "
+    "answers COk: no refusal either), C13_db_wf_decidable (db_wfb, only_atoms_verified_b decide them, iff), "
+    "C13_run_reports_coverage (run_c13 evaluates both on every replayed rule database and an odd w field implies c in "
+    "{0, 5, 7}, w = 3 implies the universe was built); near-miss Examples for each clause of db_wf (CErr 1, 4, 3) and "
+    "for the refusal; "
+    "C13_rule_set_reachable (every class of the extractor's rule set is reachable from the start class, given find_path "
+    "inside the class and simple), C13_label_map_meets_constructor_contract (the rule set built from a label map, read "
+    "as rule objects through the rule-data contract, satisfies six of the seven clauses of C02's wf_input; with the "
+    "seventh, `chains`, as a hypothesis: wf_input and spec_init <> XErr, i.e. C02_constructor_never_raises applies), "
+    "C13_rule_set_ctor_bridge_partial (the same from rule_set_ok alone, `reachable` a hypothesis too: rule_set_ok as "
+    "stated does not imply it); "
     "C13_spec_from_label_map (extractor invoked with the START label: closed rules dictionary with a rule for the start "
     "label, C02's theorem; Examples for a start label that is not its representative and for the pre-a34d719 call); "
-    "C13_two_rule_sets(_eqpath): end to end from the two rule databases to two closed rule sets, no hypothesis on the "
-    "universes left. History: C13_matched_pair_refuted, C13_eqpath_raises_refuted are about the code before 97589e3 "
+    "C13_two_rule_sets(_eqpath): end to end from the two rule databases to two closed rule sets (hypotheses per side: "
+    "construct = COk - now a consequence of db_wf + only_atoms_verified by C13_construct_ok -, ver_no_children, "
+    "fpath_ok, tree_keys = Some, order_ok). History: C13_matched_pair_refuted, C13_eqpath_raises_refuted are about the code before 97589e3 "
     "(find_base_old / find_eq_old). Found by the oracle, outside what the label-level theorems speak "
     "about: FIXED (8a96a0c) - EqPathParallelSpecFinder did not compare the equivalence paths of the children of two "
     "already-assigned labels (non-isomorphic specifications); the repair (a second final walk) is the model's pw = true, "
@@ -1328,6 +1590,16 @@ LEVEL_NOTE = (
     "the label-map notion (up to equivalence labels, as the finder works): it does not see non-equivalence rules inside "
     "equivalence paths — that, validity of the returned specifications (C01/C02) and Isomorphism.check / "
     "Bijection.construct on them are instance verdicts of the oracle (the EqPath finding fixed by 8a96a0c lived exactly there; the open chained-equivalence-steps finding does) "
+    "Totality of ParallelInfo's construction: theorem C13_construct_total under db_wf, which is evaluated on EVERY "
+    "compared rule database (k of n in extra_checks; 100% on seeds 0-2) - so on those runs 'no exception out of "
+    "_construct_eq_label_rules' is the theorem plus the correspondence, not only the oracle. The constructor stage: "
+    "C13_label_map_meets_constructor_contract composes with C02_constructor_never_raises at the MODEL level only "
+    "(spec_init; hypotheses chains, ruledata_ok, strong find_path contract, order_ok are not evaluated on C13's runs; "
+    "_create_spec is not executed by run_c13). New oracle check (emitted rule = compared rule, by kind and children) is "
+    "per instance on every returned pair of real searchers; in the generated universes all rules sharing an equivalence "
+    "key have one kind (0 of 2916 rule databases differ), so its failing branch is reached by no mutant of /repo tried - "
+    "it is exercised by a self-test in extra_checks (tampered kind, tampered children) - widening the universes with "
+    "equivalent classes whose rules differ in constructor is open. "
     "Not modelled: expansion of the searchers, EquivalenceRuleExtractor (answers of _eq_path_matches replayed as a "
-    "table), CombinatorialSpecification construction and Isomorphism (C12)."
+    "table), CombinatorialSpecification construction (C02's model, bridged as said) and Isomorphism (C12)."
 )
